@@ -28,6 +28,7 @@ MUTANTS = {
         ('err-count-4xx', 'dashlive/server/requesthandler/media_requests.py', "                    code >= 500 and\n                    options.failureCount is not None and\n                    self.increment", "                    code >= 400 and\n                    options.failureCount is not None and\n                    self.increment"),
     ],
     'C10': [
+        ('init-mehd-under-moov', 'dashlive/server/requesthandler/media_requests.py', "                del atom.moov.mvex.mehd\n", "                del atom.moov.mehd\n"),
         ('init-mehd-vod', 'dashlive/server/requesthandler/media_requests.py', "        if mode == 'live':\n            try:\n                # remove the mehd box", "        if mode != 'live':\n            try:\n                # remove the mehd box"),
         ('init-clear-pssh', 'dashlive/server/requesthandler/media_requests.py', "        atom = self.load_fragment(media, 0, options)\n        if representation.encrypted:", "        atom = self.load_fragment(media, 0, options)\n        if representation.kids:"),
         ('init-first-drm-only', 'dashlive/server/requesthandler/media_requests.py', "                    pssh = drm.moov(representation.default_kid)\n                    atom.moov.append_child(pssh)", "                    pssh = drm.moov(representation.default_kid)\n                    atom.moov.append_child(pssh)\n                    break"),
@@ -166,6 +167,11 @@ MUTANTS = {
         ('ts2td-int', 'dashlive/mpeg/dash/representation.py', '        seconds = float(timecode) / float(self.timescale)\n', '        seconds = timecode // self.timescale\n'),
     ],
     'C03': [
+        ('enc-no-seek-end', 'dashlive/mpeg/mp4.py', "        out.write(struct.pack('>I', self.size))\n        out.seek(0, 2)  # seek to end\n", "        out.write(struct.pack('>I', self.size))\n"),
+        ('enc-size-before-children', 'dashlive/mpeg/mp4.py', "        self.encode_fields(dest=out)\n        # indent = ' ' * depth\n", "        self.encode_fields(dest=out)\n        self.size = out.tell() - self.position\n"),
+        ('enc-size-from-zero', 'dashlive/mpeg/mp4.py', "        self.size = out.tell() - self.position\n        # print(f'{indent}", "        self.size = out.tell()\n        # print(f'{indent}"),
+        ('enc-patch-at-zero', 'dashlive/mpeg/mp4.py', "        out.seek(self.position)\n        out.write(struct.pack('>I', self.size))", "        out.seek(0)\n        out.write(struct.pack('>I', self.size))"),
+        ('enc-position-late', 'dashlive/mpeg/mp4.py', "        self.position = out.tell()\n        if len(self.atom_type) > 4:", "        if len(self.atom_type) > 4:"),
         ('trun-no-mdat-header', 'dashlive/mpeg/mp4.py', '        mdat_sample_start = moof.position + moof.size + mdat.header_size\n', '        mdat_sample_start = moof.position + moof.size\n'),
         ('trun-offset-base', 'dashlive/mpeg/mp4.py', '            self.data_offset = mdat_sample_start - moof.traf.tfhd.base_data_offset\n', '            self.data_offset = mdat_sample_start - moof.position\n'),
         ('trun-flag-not-set', 'dashlive/mpeg/mp4.py', '                self.flags |= self.data_offset_present\n', '                pass\n'),
